@@ -33,10 +33,21 @@ type Engine struct {
 }
 
 func loadEngine(repo, verif string) (*Engine, error) {
+	return loadEngineOverlay(repo, verif, nil)
+}
+
+func writeFileQuiet(path string, data []byte) {
+	os.MkdirAll(filepath.Dir(path), 0o755)
+	os.WriteFile(path, data, 0o644)
+}
+
+// loadEngineOverlay loads the tree with extra in-memory files (baseline copies).
+func loadEngineOverlay(repo, verif string, overlay map[string][]byte) (*Engine, error) {
 	t0 := time.Now()
 	cfg := &packages.Config{
 		Mode:       packages.LoadAllSyntax,
 		Dir:        repo,
+		Overlay:    overlay,
 		BuildFlags: []string{"-tags=verif"},
 		Env:        append(os.Environ(), "GOFLAGS=-mod=mod", "GOPROXY=off", "GOSUMDB=off", "GOTOOLCHAIN=local"),
 	}
@@ -233,6 +244,23 @@ func main() {
 	noEvidence := fs.Bool("no-evidence", false, "do not write evidence")
 	var prop string
 	args := os.Args[2:]
+	if cmd == "equiv" {
+		// govc equiv <dir.Recv.Name|dir.Name> ... [flags]: compare functions with their verified predecessors
+		var keys []declKey
+		for len(args) > 0 && !strings.HasPrefix(args[0], "-") {
+			keys = append(keys, parseDeclKey(args[0]))
+			args = args[1:]
+		}
+		fs.Parse(args)
+		c := newEquivChecker(*verif, *repo, filepath.Join(*verif, "out", "equiv"))
+		defer c.close()
+		c.prepare(keys)
+		for _, k := range keys {
+			r := c.check(k)
+			fmt.Printf("%s: %s (%s) pairs=%d queries=%d %d ms\n", k, r.Status, r.Detail, r.Pairs, r.Queries, r.Ms)
+		}
+		return
+	}
 	if cmd == "check" {
 		if len(args) == 0 {
 			fmt.Fprintln(os.Stderr, "usage: govc check <property>")
@@ -258,6 +286,23 @@ func main() {
 		fmt.Fprintln(os.Stderr, "unknown command", cmd)
 		os.Exit(2)
 	}
+}
+
+// parseDeclKey: "sdf.Box3.MinMaxDist2", "render.mcToTriangles", "vec/v3.Vec.Add".
+func parseDeclKey(s string) declKey {
+	dir := s
+	rest := ""
+	if i := strings.LastIndex(s, "/"); i >= 0 {
+		j := strings.Index(s[i:], ".")
+		dir, rest = s[:i+j], s[i+j+1:]
+	} else if j := strings.Index(s, "."); j >= 0 {
+		dir, rest = s[:j], s[j+1:]
+	}
+	f := strings.SplitN(rest, ".", 2)
+	if len(f) == 2 {
+		return declKey{dir, f[0], f[1]}
+	}
+	return declKey{dir, "", rest}
 }
 
 func envOr(k, d string) string {
@@ -436,7 +481,119 @@ func runCheck(prop, repo, verif, tier, only string, updateBaseline, verbose, noE
 		return nil
 	}
 
+	// Stale proofs: before an obligation that no longer discharges is reported, the function it
+	// belongs to is compared with its verified predecessor (equiv.go). Obligations of functions
+	// shown equivalent are carried over (reported, never counted as proved, no violation).
+	carried := map[string]*equivResult{}
+	if os.Getenv("VERIF_NO_EQUIV") == "" {
+		contractOf := func(name string) *Contract {
+			var best *Contract
+			for _, ct := range e.cs.contracts {
+				l := ct.label()
+				if (name == l || strings.HasPrefix(name, l+"/")) && (best == nil || len(l) > len(best.label())) {
+					best = ct
+				}
+			}
+			return best
+		}
+		keysOf := func(ct *Contract) []declKey {
+			if ct == nil {
+				return nil
+			}
+			if !ct.lemma {
+				return []declKey{parseDeclKey(ct.pkg + "." + ct.fnName)}
+			}
+			var ks []declKey
+			for fn := range ct.called {
+				if fo, ok := fn.Object().(*types.Func); ok && fo != nil {
+					if k, ok := keyOfFunc(fo); ok {
+						ks = append(ks, k)
+					}
+				}
+			}
+			sort.Slice(ks, func(i, j int) bool { return ks[i].String() < ks[j].String() })
+			return ks
+		}
+		failing := map[string][]declKey{}
+		for _, name := range order {
+			g := groups[name]
+			if strings.HasPrefix(name, "witness.") || strings.HasPrefix(name, "table.") {
+				continue
+			}
+			bad := (g.Status == "refuted" && isKnown(g.Name) == nil) || (g.Status == "undecided" && (baseline[prop+"|"+g.Name] || strings.HasSuffix(name, "/engine")))
+			if !bad {
+				continue
+			}
+			if ks := keysOf(contractOf(name)); len(ks) > 0 {
+				failing[name] = ks
+			}
+		}
+		if only == "" {
+			pfx := prop + "|"
+			for bn := range baseline {
+				if strings.HasPrefix(bn, pfx) {
+					short := bn[len(pfx):]
+					if _, ok := groups[short]; !ok {
+						if ks := keysOf(contractOf(short)); len(ks) > 0 {
+							failing[short] = ks
+						}
+					}
+				}
+			}
+		}
+		if len(failing) > 0 {
+			var all []declKey
+			seenK := map[declKey]bool{}
+			for _, ks := range failing {
+				for _, k := range ks {
+					if !seenK[k] {
+						seenK[k] = true
+						all = append(all, k)
+					}
+				}
+			}
+			sort.Slice(all, func(i, j int) bool { return all[i].String() < all[j].String() })
+			ck := newEquivChecker(verif, repo, outDir)
+			ck.prepare(all)
+			for name, ks := range failing {
+				var worst *equivResult
+				ok := true
+				for _, k := range ks {
+					r := ck.check(k)
+					if r.Status == "unchanged" && len(ks) > 1 {
+						continue // a lemma may mention functions that did not change
+					}
+					if !r.carries() {
+						ok = false
+						break
+					}
+					if worst == nil || r.Status == "bounded-equivalent" {
+						worst = r
+					}
+				}
+				if ok && worst != nil {
+					carried[name] = worst
+				}
+			}
+			if verbose {
+				for _, k := range all {
+					r := ck.check(k)
+					fmt.Printf("  equivalence with the verified baseline: %s: %s %s (%d pairs, %d queries, %d ms)\n", k, r.Status, r.Detail, r.Pairs, r.Queries, r.Ms)
+				}
+			}
+			ck.close()
+		}
+	}
+	carriedLine := func(name string, r *equivResult) string {
+		how := "equivalent to its verified predecessor on every path"
+		if r.Status == "bounded-equivalent" {
+			how = fmt.Sprintf("equivalent to its verified predecessor up to %d iterations per loop entry / %d nested activations (bounded, not counted as proved)", equivBound, equivRecursion)
+		}
+		return fmt.Sprintf("carried over: %s: the proof no longer fits the changed code, the function is %s", name, how)
+	}
+
 	nObl, nDis, nKnown, nUndecidedNew := 0, 0, 0, 0
+	nCarried := 0
 	violations := 0
 	var lines []string
 	var perObl []map[string]interface{}
@@ -467,9 +624,17 @@ func runCheck(prop, repo, verif, tier, only string, updateBaseline, verbose, noE
 				nKnown++
 				continue
 			}
+			rp := writeReplay(e, prop, g)
+			if cr := carried[g.Name]; cr != nil && !rp.reproduced {
+				// no input reproduces a failure on the real code and the function is unchanged in behaviour
+				nCarried++
+				rec["status"] = "carried-over"
+				rec["equivalence"] = cr
+				lines = append(lines, carriedLine(g.Name, cr))
+				continue
+			}
 			nObl++
 			violations++
-			rp := writeReplay(e, prop, g)
 			suffix := ""
 			if !rp.reproduced {
 				suffix = " no-failing-input-found"
@@ -477,6 +642,13 @@ func runCheck(prop, repo, verif, tier, only string, updateBaseline, verbose, noE
 			lines = append(lines, fmt.Sprintf("VIOLATION property=%s replay=%s%s", prop, rp.path, suffix))
 			lines = append(lines, fmt.Sprintf("  refuted obligation: %s  (%s)", g.Name, g.What))
 		case "undecided":
+			if cr := carried[g.Name]; cr != nil {
+				nCarried++
+				rec["status"] = "carried-over"
+				rec["equivalence"] = cr
+				lines = append(lines, carriedLine(g.Name, cr))
+				continue
+			}
 			if baseline[prop+"|"+g.Name] {
 				nObl++
 				violations++
@@ -504,6 +676,12 @@ func runCheck(prop, repo, verif, tier, only string, updateBaseline, verbose, noE
 		}
 		sort.Strings(miss)
 		for _, m := range miss {
+			if cr := carried[m]; cr != nil {
+				nCarried++
+				perObl = append(perObl, map[string]interface{}{"name": m, "status": "carried-over", "equivalence": cr})
+				lines = append(lines, carriedLine(m, cr))
+				continue
+			}
 			missing++
 			violations++
 			nObl++
@@ -518,8 +696,8 @@ func runCheck(prop, repo, verif, tier, only string, updateBaseline, verbose, noE
 		fmt.Println(l)
 	}
 	wall := time.Since(t0).Seconds()
-	fmt.Printf("%s [%s]: %d obligations, %d discharged, %d known findings, %d undecided-uncounted, %d violations, %d engine errors, %.1fs (load %.1fs, solver %.1fs cpu)\n",
-		prop, tier, nObl, nDis, nKnown, nUndecidedNew, violations, len(engineErrs), wall, float64(e.loadMs)/1000, float64(solverMs)/1000)
+	fmt.Printf("%s [%s]: %d obligations, %d discharged, %d known findings, %d undecided-uncounted, %d carried over, %d violations, %d engine errors, %.1fs (load %.1fs, solver %.1fs cpu)\n",
+		prop, tier, nObl, nDis, nKnown, nUndecidedNew, nCarried, violations, len(engineErrs), wall, float64(e.loadMs)/1000, float64(solverMs)/1000)
 	if verbose {
 		type kv struct {
 			n  string
@@ -554,6 +732,7 @@ func runCheck(prop, repo, verif, tier, only string, updateBaseline, verbose, noE
 		}
 		writeLocals(lp, locs)
 	}
+	carriedOver = nCarried
 	if !noEvidence {
 		writeEvidence(e, prop, tier, seed, wall, nObl, nDis, nKnown, violations, perObl, fnsUnder, engineErrs, solverMs, groups, order)
 	}
